@@ -76,12 +76,28 @@ func rawArgv(argv []string) []string {
 }
 
 func runGts(w *simos.World, argv []string, spec simos.ProcSpec) (res procResult) {
+	p := startGts(w, argv, spec)
+	return endGts(w, p, gtsBody(p))
+}
+
+// startGts makes a fresh simulated process the current one: package-level
+// state as after exec, standard streams, arguments.
+func startGts(w *simos.World, argv []string, spec simos.ProcSpec) *simos.Proc {
 	argv = rawArgv(argv)
 	simos.W = w
 	resetProcessGlobals()
 	resetMainGlobals()
 	p := w.StartProc(spec)
 	simos.Args = append([]string{"gts"}, argv...)
+	// flags.Run (a dependency, not rewritten) reads the real os.Args
+	realos.Args = append([]string{"gts"}, argv...)
+	return p
+}
+
+// gtsBody runs the real main of cmd/gts (renamed by the rewriter) in the
+// current process: flags.Run reads the process arguments, the command runs,
+// os.Exit (the simulated one) unwinds with the status.
+func gtsBody(p *simos.Proc) (res procResult) {
 	status := 0
 	func() {
 		defer func() {
@@ -104,10 +120,6 @@ func runGts(w *simos.World, argv []string, spec simos.ProcSpec) (res procResult)
 				}
 			}
 		}()
-		// The real main of cmd/gts (renamed by the rewriter): flags.Run reads
-		// the process arguments, the command runs, os.Exit (the simulated one)
-		// unwinds with the status.
-		realos.Args = append([]string{"gts"}, argv...)
 		gtsRealMain()
 	}()
 	if p.Crashed {
@@ -118,14 +130,42 @@ func runGts(w *simos.World, argv []string, spec simos.ProcSpec) (res procResult)
 		}
 	}
 	res.Status = status
+	return res
+}
+
+// endGts is the end of the current process p: its descriptors are closed and
+// what it wrote to its standard streams is collected.
+func endGts(w *simos.World, p *simos.Proc, res procResult) procResult {
 	res.Ops = p.Ops
 	res.Trace = p.Trace
-	res.Stdout, res.Stderr = w.EndProc(status)
+	res.Stdout, res.Stderr = w.EndProc(res.Status)
 	res.Fired = p.Fired
 	if res.Panic != "" {
 		res.Stderr = append(res.Stderr, []byte("panic: "+firstLine(res.Panic)+"\n")...)
 	}
 	return res
+}
+
+// suspendProc sets the simulated process that is running aside - at the
+// operation it is about to perform - so that another one can run on the same
+// machine meanwhile, and returns the function that lets it go on: the world's
+// current process, its three standard streams, its arguments, the
+// package-level variables of cmd/gts and the qualifier registries are all
+// that one gts process has that another does not share.
+func suspendProc(w *simos.World) func() {
+	p := w.P
+	in, out, errf := simos.Stdin, simos.Stdout, simos.Stderr
+	args, rargs := simos.Args, realos.Args
+	back := saveMainGlobals()
+	q, l, t := seqio.QuotedQualifierNames, seqio.LiteralQualifierNames, seqio.ToggleQualifierNames
+	return func() {
+		simos.W = w
+		w.P = p
+		simos.Stdin, simos.Stdout, simos.Stderr = in, out, errf
+		simos.Args, realos.Args = args, rargs
+		back()
+		seqio.QuotedQualifierNames, seqio.LiteralQualifierNames, seqio.ToggleQualifierNames = q, l, t
+	}
 }
 
 func firstLine(s string) string {
